@@ -299,8 +299,42 @@ def rule_t34(report, prog):
                  'Type 4 write range changed: %s' % '; '.join((v['fold'] + v['range'])[:2]))
 
 
+def rule_tlv_writer(report, prog, rule='C03-R1'):
+    """The NDEF TLV writers of Type 1 / Type 2 folded over layouts x message lengths against a plain memory image (rules/tlvmodel.py):
+    only the length field and free bytes of the data area behind it change -- no lock / reserved byte, nothing at or beyond the end
+    of the data area (the terminator included, also when reserved bytes run up to or across the end) -- and the octets sit in order
+    on the free addresses."""
+    from . import tlvmodel
+    v = tlvmodel.verdicts(prog)
+    for kind in ('tt1', 'tt2'):
+        f = prog.func('nfc.tag.%s.Type%sTag.NDEF._write_ndef_data' % (kind, kind[2]))
+        problems, n = v[kind]
+        report.check(not problems, rule, key(f.qname, 'folded writer changes only the length field and free bytes of the data area'), f.loc(),
+                     '; '.join(problems[:2]), detail='%d (layout, message length) points folded' % n)
+
+
+def rule_skip_set_complete(report, prog, rule='C03-R1'):
+    """What a lock / memory control TLV declares reserved is reserved wherever it lies: the byte ranges the readers add to the skip
+    set are cut only by a constant that covers the whole address space of the tag type (Type 1: 16 segments of 128 bytes, Type 2:
+    CC size field), never by a run-time quantity such as the part of the image read so far (the image is loaded lazily: a range
+    beyond it would silently drop out of the skip set and of the capacity)."""
+    n = 0
+    for kind, space in (('tt1', 2048), ('tt2', 2056)):
+        f = prog.func('nfc.tag.%s.Type%sTag.NDEF._read_ndef_data' % (kind, kind[2]))
+        for c in ast.walk(f.node):
+            if isinstance(c, ast.Call) and isinstance(c.func, ast.Attribute) and c.func.attr == 'indices' and len(c.args) == 1:
+                n += 1
+                k = try_const(c.args[0])
+                report.check(isinstance(k, int) and k >= space, rule, key(f.qname, 'control TLV byte range cut by a constant that covers the address space', norm(c.func.value)), f.loc(c),
+                             '%s cuts the %s range with `%s`: addresses the control TLV reserves beyond that are not skipped (and counted as capacity)'
+                             % (f.qname.replace('nfc.tag.', ''), norm(c.func.value), norm(c.args[0])))
+    report.floor(rule + ' control TLV range cuts', n, 4)
+
+
 def run(report, prog, tier):
     rule_control_tlv_dispatch(report, prog)
+    rule_tlv_writer(report, prog)
+    rule_skip_set_complete(report, prog)
     rule_guarded_stores(report, prog)
     rule_vendor(report, prog)
     c02.rule_writeback(report, prog)
